@@ -1,6 +1,7 @@
 package mon
 
 import (
+	"bufio"
 	"bytes"
 	"database/sql"
 	"database/sql/driver"
@@ -720,6 +721,29 @@ func c03CodecOn(c *fw.Ctx, g *model.G, m wkbMode) {
 		}
 		if sr.pos != len(want) {
 			c.Fail("wrong-consumption", "%s: Read consumed %d bytes of a %d byte encoding (pattern %d)", m.name, sr.pos, len(want), pat)
+			return
+		}
+	}
+	// the caller's own buffered readers: a bufio.Reader of any size (its buffer may be
+	// far smaller than one coordinate array), a bufio.Reader over a splitting reader
+	{
+		size := []int{16, 17, 64, 100, 512, 4096, 65536}[r.Intn(7)]
+		var src io.Reader = bytes.NewReader(want)
+		if r.Bool() {
+			src = &splitReader{b: want, pattern: r.Intn(4), r: r}
+		}
+		br := bufio.NewReaderSize(src, size)
+		var rt geom.T
+		if c.Guard("panic", func() { rt, err = m.read(br) }) {
+			return
+		}
+		c.Eval(1)
+		c.Count("read_through_a_bufio_reader_of_the_caller")
+		if err != nil {
+			c.Fail("split-read-error", "%s: Read through the caller's bufio.Reader of size %d failed: %v", m.name, size, err)
+			return
+		}
+		if !expectGeom(c, fmt.Sprintf("%s Read (bufio.Reader of size %d)", m.name, size), rt, exp, model.Opts{}) {
 			return
 		}
 	}
